@@ -43,15 +43,25 @@ def ensure_extractor():
 
 
 _scratch_root = None
+_scratch_lock = __import__("threading").Lock()
+
+
+def _rm_scratch(path):
+    shutil.rmtree(path, ignore_errors=True)
+    if os.path.exists(path):   # (read-only build outputs etc.)
+        subprocess.run(["chmod", "-R", "u+w", path], stdout=subprocess.DEVNULL, stderr=subprocess.DEVNULL)
+        subprocess.run(["rm", "-rf", path], stdout=subprocess.DEVNULL, stderr=subprocess.DEVNULL)
 
 
 def scratch_root():
-    """Per-process scratch directory outside /repo and /verif; removed at exit."""
+    """Per-process scratch directory outside /repo and /verif; removed at exit (the Verus and Kani sides ask for it from two
+    threads: created once, under a lock)."""
     global _scratch_root
-    if _scratch_root is None:
-        _scratch_root = tempfile.mkdtemp(prefix="orxverif.%d." % os.getpid(), dir=os.environ.get("VERIF_TMP", "/tmp"))
-        import atexit
-        atexit.register(lambda: shutil.rmtree(_scratch_root, ignore_errors=True))
+    with _scratch_lock:
+        if _scratch_root is None:
+            _scratch_root = tempfile.mkdtemp(prefix="orxverif.%d." % os.getpid(), dir=os.environ.get("VERIF_TMP", "/tmp"))
+            import atexit
+            atexit.register(_rm_scratch, _scratch_root)
     return _scratch_root
 
 
